@@ -1336,8 +1336,14 @@ class TLSConnection(TLSRecordLayer):
                         "Server selected not advertised group."):
                     yield result
             kex = self._getKEX(sr_kex.group, self.version)
-            shared_sec = kex.calc_shared_key(cl_kex.private,
-                                             sr_kex.key_exchange)
+            try:
+                shared_sec = kex.calc_shared_key(cl_kex.private,
+                                                 sr_kex.key_exchange)
+            except TLSIllegalParameterException as alert:
+                for result in self._sendError(
+                        AlertDescription.illegal_parameter,
+                        str(alert)):
+                    yield result
         else:
             shared_sec = bytearray(prf_size)
 
